@@ -5,7 +5,7 @@ set -u
 O=$1; P=$2; MSG=$3
 export PATH=/opt/veriftools/go1.26.8/bin:$PATH GOTOOLCHAIN=local GOFLAGS=-mod=mod GOPROXY=off GOSUMDB=off; unset GOWORK
 cp $O/rules_f_*.go $O/mutants_f_*.go /verif/checker/ 2>/dev/null
-if [ -d $O/existing ]; then for f in $O/existing/*.go; do [ -f "$f" ] && cp $f /verif/checker/; done; fi
+if [ -d $O/existing ]; then for f in $O/existing/*.go; do [ -f "$f" ] && /verif/tools/merge_existing.sh ${BASE:-HEAD} $f; done; fi
 cd /repo || exit 2
 if [ -f $O/fix.diff ]; then
   git apply $O/fix.diff || git apply -3 $O/fix.diff || { echo "MERGE: fix does not apply"; exit 1; }
